@@ -4,6 +4,7 @@ package cbor
 
 import (
 	"bytes"
+	"io"
 
 	"github.com/rs/zerolog/internal/zzverif"
 )
@@ -149,9 +150,25 @@ func vBuildEvent(kind int, sym bool) []byte {
 	return e.AppendEndMarker(b)
 }
 
+// vOneByte: the source hands out one byte per Read call (any io.Reader may return short reads).
+var vOneByte bool
+
+type vOneByteReader struct{ r io.Reader }
+
+func (o vOneByteReader) Read(p []byte) (int, error) {
+	if len(p) == 0 {
+		return 0, nil
+	}
+	return o.r.Read(p[:1])
+}
+
 func vDecode(in []byte) ([]byte, error) {
 	var b bytes.Buffer
-	err := Cbor2JsonManyObjects(bytes.NewReader(in), &b)
+	var src io.Reader = bytes.NewReader(in)
+	if vOneByte {
+		src = vOneByteReader{src}
+	}
+	err := Cbor2JsonManyObjects(src, &b)
 	return append([]byte(nil), b.Bytes()...), err
 }
 
@@ -164,12 +181,21 @@ func VH_C17_cut_hex()   { vCut(5) }
 func VH_C17_cut_array() { vCut(6) }
 func VH_C17_cut_float() { vCut(7) }
 
+const vCborPkg = "github.com/rs/zerolog/internal/cbor"
+
 func vCut(kind int) {
+	vOneByte = zzverif.Choice(2) == 1
 	ev1 := vBuildEvent(kind, true)
 	ev2 := vBuildEvent(zzverif.Choice(2)*4, zzverif.Param("cutextra", 0) == 1) // int or array
 	stream := append(append([]byte(nil), ev1...), ev2...)
 	full, err := vDecode(stream)
 	zzverif.Assert(err == nil, "cut: the full stream decodes without error")
+	// after this first (warm-up) decode any lazily initialised package state exists; from here
+	// on decoding, successful or not, must not change package state any more
+	zzverif.SnapshotGlobals(vCborPkg)
+	defer func() {
+		zzverif.Assert(zzverif.GlobalsUnchanged(vCborPkg), "decoding (successful or not) leaves no trace in package state: the result is a function of the input alone")
+	}()
 	line1, err1 := vDecode(ev1)
 	zzverif.Assert(err1 == nil && len(line1) <= len(full) && zzverif.EqualBytes(full[:len(line1)], line1), "cut: first event decodes the same alone and in the stream")
 	c := zzverif.Choice(len(stream) + 1)
